@@ -309,7 +309,10 @@ def option_set(case):
             if t[0] != fix["div_i"] or t[3] != fix["pmpr_i"]:
                 continue
             yield roll_opt(t, extra=fix.get("extra"))
-    elif name == "roll-pairs":
+    elif name == "roll-pairs":  # pairwise covering array (15 rows)
+        for t in COV_ROLL:
+            yield roll_opt(t, extra=fix.get("extra"))
+    elif name == "roll-pairs2":  # covering array + mirror image (30 rows)
         for t in _mirror(COV_ROLL, ROLL_DOMS):
             yield roll_opt(t, extra=fix.get("extra"))
     elif name == "roll-units":
@@ -320,20 +323,20 @@ def option_set(case):
                         for rd in (None, True, False):
                             o = roll_opt((0, 0, 0, 0, tm, 0 if rs else 1, 1 if tm else 0, 0, 0), unit=unit)
                             o["time_div"] = div
+                            o["end_as_int"] = True
                             if rd is not None:
                                 o["remove_drums"] = rd
                             yield o
     elif name == "roll-offgrid":
         for div_i in range(3):
-            for oo, sepn, tm, ks, idxs in itertools.product(range(2), repeat=5):
-                for pmpr in (0, 2):
-                    yield roll_opt((div_i, oo, sepn, pmpr, tm, ks, 0, 0, idxs), unit=fix.get("unit", "auto"))
+            for oo, sepn, tm, ks in itertools.product(range(2), repeat=4):
+                yield roll_opt((div_i, oo, sepn, 2 * tm, tm, ks, 0, 0, 0), unit=fix.get("unit", "auto"))
     elif name == "pc-full":
         for t in itertools.product(*[range(d) for d in PC_DOMS]):
             if t[0] != fix["div_i"]:
                 continue
             yield pc_opt(t)
-    elif name == "pc-pairs":
+    elif name == "pc-pairs2":
         for t in _mirror(COV_PC, PC_DOMS):
             yield pc_opt(t)
     else:
@@ -354,14 +357,19 @@ def _call(res, clause, detail, fn, *a, **kw):
         return False, None
 
 
-def _ref_inputs(case, o):
+def _ref_inputs(case, o, cache):
+    """family, selected unit, resolution, the note array (a fresh copy) and the notes that count."""
     fam = case["fam"]
     unit, div = resolve(fam, o)
-    vals = note_values(case, unit, div)
+    key = (unit, div)
+    if key not in cache:
+        vals = note_values(case, unit, div)
+        cache[key] = (vals, build_array(fam, unit, vals))
+    vals, arr = cache[key]
     keep = vals
     if any(v[4] is not None for v in vals) and o.get("remove_drums", True):
         keep = [v for v in vals if v[4] != 9]
-    return fam, unit, div, vals, [v[:4] for v in keep]
+    return fam, unit, div, arr.copy(), [v[:4] for v in keep]
 
 
 def _kwargs(o, ref, names):
@@ -384,15 +392,14 @@ PC_KW = ("normalize", "time_unit", "time_div", "onset_only", "note_separation", 
          "remove_silence", "end_time", "binary")
 
 
-def check_roll(res, case, o, stats):
+def check_roll(res, case, o, stats, cache):
     from partitura.utils.music import compute_pianoroll, pianoroll_to_notearray
 
-    fam, unit, div, vals, notes = _ref_inputs(case, o)
+    fam, unit, div, arr, notes = _ref_inputs(case, o, cache)
     ref = ref_roll(notes, div, o)
     if ref is None:
         stats["skipped"] += 1
         return
-    arr = build_array(fam, unit, vals)
     kw = _kwargs(o, ref, ROLL_KW)
     detail = "notes=%s fam=%s kwargs=%s" % (case["notes"], fam, sorted(kw.items()))
     res.states += 1
@@ -452,16 +459,15 @@ def check_roll(res, case, o, stats):
                     res.fail("round-trip", expected=want, observed=have, where="pianoroll_to_notearray", detail=detail)
 
 
-def check_pc(res, case, o, stats):
+def check_pc(res, case, o, stats, cache):
     from partitura.utils.music import compute_pitch_class_pianoroll
 
-    fam, unit, div, vals, notes = _ref_inputs(case, o)
+    fam, unit, div, arr, notes = _ref_inputs(case, o, cache)
     full = dict(o, binary=False)
     ref = ref_roll(notes, div, full)
     if ref is None:
         stats["skipped"] += 1
         return
-    arr = build_array(fam, unit, vals)
     kw = _kwargs(o, ref, PC_KW)
     detail = "pitch-class notes=%s fam=%s kwargs=%s" % (case["notes"], fam, sorted(kw.items()))
     res.states += 1
@@ -522,8 +528,8 @@ def check_inverse(res, case, stats):
     for r, s, l, v in runs:
         dense[r, s:s + l] = v
     base = 0 if R == 128 else 21
-    for div, unit in case["divs"]:
-        for cont in case["containers"]:
+    for k, (div, unit) in enumerate(case["divs"]):
+        for cont in (case["containers"] if k == 0 else case["containers"][:1]):
             roll = dense.copy() if cont == "ndarray" else (csc_matrix(dense) if cont == "csc" else csr_matrix(dense))
             detail = "roll %dx%d runs=%s time_div=%r time_unit=%s container=%s" % (R, n, runs, div, unit, cont)
             res.states += 1
@@ -557,8 +563,9 @@ def eval_case(case):
         check_inverse(res, case, stats)
     else:
         fn = check_roll if kind == "roll" else check_pc
+        cache = {}
         for o in option_set(case):
-            fn(res, case, o, stats)
+            fn(res, case, o, stats, cache)
     res.nontrivial = stats["nontrivial"] > 0
     res.outcome = "%s evals=%d nnz=%d rt=%d skipped=%d" % (kind, res.states, stats["nnz"], stats["roundtrips"], stats["skipped"])
     res.extra = {"option_combinations_skipped_as_ambiguous": stats["skipped"], "round_trips": stats["roundtrips"],
@@ -612,9 +619,10 @@ def gen_units():
 
 
 VEL2 = [(None, None)] + [(a, b) for a in (1, 64, 127) for b in (1, 64, 127)]
+VEL2_CORE = [(None, None), (1, 64), (64, 1), (64, 127), (127, 64), (127, 127)]
 
 
-def gen_pairs(pitches, onsets, durs, vels, chans, fams):
+def gen_pairs(pitches, onsets, durs, vels, chans, fams, optset="roll-pairs", skip=None):
     """every ordered 2-row array over the alphabets."""
     k = 0
     for p1, p2 in itertools.product(pitches, repeat=2):
@@ -624,11 +632,13 @@ def gen_pairs(pitches, onsets, durs, vels, chans, fams):
                     for c1, c2 in chans:
                         fam = fams[k % len(fams)]
                         k += 1
-                        yield dict(kind="roll", fam=fam, optset="roll-pairs",
-                                   notes=[[p1, o1, d1, v1, c1], [p2, o2, d2, v2, c2]])
+                        notes = [[p1, o1, d1, v1, c1], [p2, o2, d2, v2, c2]]
+                        if skip is not None and skip(notes):
+                            continue
+                        yield dict(kind="roll", fam=fam, optset=optset, notes=notes)
 
 
-def gen_triples(pitches, onsets, durs, with_vel, fams):
+def gen_triples(pitches, onsets, durs, with_vel, fams, optset="roll-pairs"):
     """every ordered 3-row array over the note alphabet; velocities = every assignment of (1, 64, 127)
     and of (64, 127, 127) to the rows, or none - so every permutation of every row multiset occurs."""
     alpha = [(p, o, d) for p in pitches for o in onsets for d in durs]
@@ -640,7 +650,7 @@ def gen_triples(pitches, onsets, durs, with_vel, fams):
         for vs in vel_sets:
             fam = fams[k % len(fams)]
             k += 1
-            yield dict(kind="roll", fam=fam, optset="roll-pairs",
+            yield dict(kind="roll", fam=fam, optset=optset,
                        notes=[[n[0], n[1], n[2], v, None] for n, v in zip(trip, vs)])
 
 
@@ -658,13 +668,15 @@ def gen_offgrid():
                                notes=[[p1, o1, d1, v1, None], [p2, o2, d2, v2, None]])
 
 
+PC_EXTRA = [
+    ("perf", [[60, 0, 2, 64, None], [72, 1, 2, 127, None], [48, 1, 1, 1, None]]),   # three octaves of C overlap
+    ("perf", [[0, 0, 1, 3, None], [127, 0, 1, 5, None], [120, 1, 1, 7, None]]),     # lowest / highest octave (short last slice)
+    ("score", [[59, 1, 1, None, None], [71, 0, 2, None, None], [60, 0, 1, None, None]]),
+]
+
+
 def gen_pc_core():
-    extra = [
-        ("perf", [[60, 0, 2, 64, None], [72, 1, 2, 127, None], [48, 1, 1, 1, None]]),   # three octaves of C overlap
-        ("perf", [[0, 0, 1, 3, None], [127, 0, 1, 5, None], [120, 1, 1, 7, None]]),     # lowest / highest octave (short last slice)
-        ("score", [[59, 1, 1, None, None], [71, 0, 2, None, None], [60, 0, 1, None, None]]),
-    ]
-    for fam, notes in CORE + extra:
+    for fam, notes in CORE + PC_EXTRA:
         for div_i in range(3):
             yield dict(kind="pc", fam=fam, notes=notes, optset="pc-full", fix=dict(div_i=div_i))
 
@@ -677,7 +689,7 @@ def gen_pc_pairs(pitches, onsets, durs, vels):
                 for v1, v2 in vels:
                     fam = ("perf", "score")[k % 2]
                     k += 1
-                    yield dict(kind="pc", fam=fam, optset="pc-pairs", notes=[[p1, o1, d1, v1, None], [p2, o2, d2, v2, None]])
+                    yield dict(kind="pc", fam=fam, optset="pc-pairs2", notes=[[p1, o1, d1, v1, None], [p2, o2, d2, v2, None]])
 
 
 def gen_inverse(R, n_max, rows, values, max_runs, divs, containers):
@@ -708,6 +720,12 @@ def _block(gen, B, b):
     return it
 
 
+INV_DIVS = [[1, "sec"], [2, "beat"], [8, "div"], [3, "quarter"]]
+INV_CONT = ["ndarray", "csc", "csr"]
+INV_TXT = ("decoded with (time_div, unit) in {(1,sec),(2,beat),(8,div),(3,quarter)} from an ndarray, and with (1,sec) also "
+           "from csc and csr matrices")
+
+
 def spaces(tier, seed):
     if not (_covers_all_pairs(COV_ROLL, ROLL_DOMS) and _covers_all_pairs(COV_PC, PC_DOMS)):
         raise AssertionError("covering arrays do not cover all pairs")
@@ -720,74 +738,84 @@ def spaces(tier, seed):
                     "return_idxs (x remove_drums where a channel column exists)" % len(CORE)))
     sp.append(Space("units-and-resolution", gen_units, True,
                     "5 arrays x 5 column families (beat+quarter+div, quarter+div, div, sec+tick, tick) x time_unit{auto + every "
-                    "unit present} x time_div{auto,1,2,4} x remove_silence x time_margin(+end_time) x remove_drums{default,T,F}; "
-                    "columns of the units not selected hold different numbers"))
-    vel_q = [(None, None), (1, 64), (64, 1), (64, 127), (127, 64), (127, 127)]
+                    "unit present} x time_div{auto,1,2,4} x remove_silence x time_margin(+end_time, as int when integral) x "
+                    "remove_drums{default,T,F}; columns of the units not selected hold different numbers"))
+    P4 = (21, 60, 61, 108)
     if quick:
-        g = lambda: gen_pairs((21, 60, 61, 108), (0, 1, 2), (0, 1, 2), vel_q, [(None, None)], ("perf", "score"))
-        sp.append(Space("two-row-arrays", g, True,
+        sp.append(Space("two-row-arrays",
+                        lambda: gen_pairs(P4, (0, 1, 2), (0, 1, 2), VEL2_CORE, [(None, None)], ("perf", "score")), True,
                         "ALL ordered 2-row arrays: pitch{21,60,61,108}^2 x onset{0,1,2}^2 x duration{0,1,2}^2 grid steps x velocity"
-                        "{absent,(1,64),(64,1),(64,127),(127,64),(127,127)} x 30 option rows (pairwise covering array + mirror)"))
-        g2 = lambda: gen_pairs((60, 61), (0, 2), (0, 1), [(None, None), (64, 127), (127, 64)], [(0, 0), (0, 9), (9, 0)], ("perf", "score"))
-        sp.append(Space("two-row-arrays-channels", g2, True,
+                        "{absent,(1,64),(64,1),(64,127),(127,64),(127,127)}; 15 option rows each (pairwise covering array over the 9 "
+                        "option dimensions)"))
+        B2 = 8
+        in_core = lambda notes: (all(n[1] in (0, 1, 2) for n in notes) and (notes[0][3], notes[1][3]) in VEL2_CORE)
+        sp.append(Space("two-row-arrays-block",
+                        _block(lambda: gen_pairs(P4, (0, 1, 2, 4), (0, 1, 2), VEL2, [(None, None)], ("perf", "score"), skip=in_core),
+                               B2, seed % B2), True,
+                        "block %d of %d (sha1 of the case) of the rest of the thorough 2-row scope (onset{0,1,2,4}, velocity absent or "
+                        "{1,64,127}^2); 15 option rows each" % (seed % B2, B2)))
+        sp.append(Space("two-row-arrays-channels",
+                        lambda: gen_pairs((60, 61), (0, 2), (0, 1), [(None, None), (64, 127), (127, 64)],
+                                          [(0, 0), (0, 9), (9, 0)], ("perf", "score")), True,
                         "ALL ordered 2-row arrays pitch{60,61}^2 x onset{0,2}^2 x duration{0,1}^2 x velocity{absent,(64,127),(127,64)} x "
-                        "channel{(0,0),(0,9),(9,0)} x 30 option rows"))
-        B = 6
-        g3 = _block(lambda: gen_triples((60, 61), (0, 1, 2), (0, 1, 2), True, ("perf", "score")), B, seed % B)
-        sp.append(Space("three-row-arrays-block", g3, True,
-                        "block %d of %d (sha1 of the case) of ALL ordered 3-row arrays over pitch{60,61} x onset{0,1,2} x duration{0,1,2}, "
-                        "velocities absent or every assignment of (1,64,127)/(64,127,127) to the rows; 30 option rows each" % (seed % B, B)))
-        g3c = lambda: gen_triples((60,), (0, 1), (1, 2), True, ("perf",))
-        sp.append(Space("three-row-arrays-core", g3c, True,
+                        "channel{(0,0),(0,9),(9,0)}; 15 option rows each"))
+        sp.append(Space("three-row-arrays-core",
+                        lambda: gen_triples((60,), (0, 1), (1, 2), True, ("perf",), "roll-pairs2"), True,
                         "ALL ordered 3-row arrays over pitch{60} x onset{0,1} x duration{1,2} (every row permutation, every velocity "
-                        "assignment, all collide); 30 option rows each"))
+                        "assignment of (1,64,127)/(64,127,127) or none; all collide); 30 option rows each (covering array + mirror)"))
+        B3 = 8
+        sp.append(Space("three-row-arrays-block",
+                        _block(lambda: gen_triples((60, 61), (0, 1, 2), (0, 1, 2), True, ("perf", "score")), B3, seed % B3), True,
+                        "block %d of %d (sha1 of the case) of ALL ordered 3-row arrays over pitch{60,61} x onset{0,1,2} x duration{0,1,2}, "
+                        "velocities absent or every assignment of (1,64,127)/(64,127,127) to the rows; 15 option rows each" % (seed % B3, B3)))
     else:
-        g = lambda: gen_pairs((21, 60, 61, 108), (0, 1, 2, 4), (0, 1, 2), VEL2, [(None, None)], ("perf", "score"))
-        sp.append(Space("two-row-arrays", g, True,
+        sp.append(Space("two-row-arrays",
+                        lambda: gen_pairs(P4, (0, 1, 2, 4), (0, 1, 2), VEL2, [(None, None)], ("perf", "score"), "roll-pairs2"), True,
                         "ALL ordered 2-row arrays: pitch{21,60,61,108}^2 x onset{0,1,2,4}^2 x duration{0,1,2}^2 x velocity{absent, "
-                        "{1,64,127}^2} x 30 option rows"))
-        g2 = lambda: gen_pairs((60, 61), (0, 1, 2), (0, 1, 2), [(None, None), (64, 127), (127, 64)],
-                               [(0, 0), (0, 9), (9, 0), (1, 9)], ("perf", "score", "perf-t"))
-        sp.append(Space("two-row-arrays-channels", g2, True,
-                        "ALL ordered 2-row arrays pitch{60,61}^2 x onset{0,1,2}^2 x duration{0,1,2}^2 x 3 velocity patterns x 4 channel patterns"))
-        g3 = lambda: gen_triples((60, 61), (0, 1, 2), (0, 1, 2), True, ("perf", "score"))
-        sp.append(Space("three-row-arrays", g3, True,
+                        "{1,64,127}^2}; 30 option rows each (pairwise covering array + mirror)"))
+        sp.append(Space("two-row-arrays-channels",
+                        lambda: gen_pairs((60, 61), (0, 1, 2), (0, 1, 2), [(None, None), (64, 127), (127, 64)],
+                                          [(0, 0), (0, 9), (9, 0), (1, 9)], ("perf", "score", "perf-t"), "roll-pairs2"), True,
+                        "ALL ordered 2-row arrays pitch{60,61}^2 x onset{0,1,2}^2 x duration{0,1,2}^2 x 3 velocity patterns x 4 channel "
+                        "patterns; 30 option rows each"))
+        sp.append(Space("three-row-arrays",
+                        lambda: gen_triples((60, 61), (0, 1, 2), (0, 1, 2), True, ("perf", "score"), "roll-pairs"), True,
                         "ALL ordered 3-row arrays over pitch{60,61} x onset{0,1,2} x duration{0,1,2}, velocities absent or every "
-                        "assignment of (1,64,127)/(64,127,127); 30 option rows each"))
-        g3w = lambda: gen_triples((21, 60, 108), (0, 2, 3), (1, 3), False, ("score", "perf"))
-        sp.append(Space("three-row-arrays-wide", g3w, True,
+                        "assignment of (1,64,127)/(64,127,127); 15 option rows each (pairwise covering array)"))
+        sp.append(Space("three-row-arrays-core",
+                        lambda: gen_triples((60,), (0, 1), (1, 2), True, ("perf",), "roll-pairs2"), True,
+                        "ALL ordered 3-row arrays over pitch{60} x onset{0,1} x duration{1,2}; 30 option rows each (covering array + mirror)"))
+        sp.append(Space("three-row-arrays-wide",
+                        lambda: gen_triples((21, 60, 108), (0, 2, 3), (1, 3), False, ("score", "perf"), "roll-pairs2"), True,
                         "ALL ordered 3-row arrays over pitch{21,60,108} x onset{0,2,3} x duration{1,3}, no velocities; 30 option rows"))
     sp.append(Space("off-grid", gen_offgrid, True,
                     "ALL ordered 2-row arrays pitch{(60,60),(60,61)} x onset{5/16,27/16,35/16,-3/16}^2 x duration{3/16,11/16,21/16,2}^2 x "
-                    "velocity{absent,(64,127),(127,64)} in float units x time_div{1,2,4} x onset_only x note_separation x time_margin x "
-                    "remove_silence x return_idxs x pitch_margin{-1,2}; combinations with a rounding tie or two readings of the end "
-                    "frame are left out (counted)"))
+                    "velocity{absent,(64,127),(127,64)} in float units (beat, quarter, sec, auto) x time_div{1,2,4} x onset_only x "
+                    "note_separation x time_margin(+pitch_margin 2) x remove_silence; combinations with a rounding tie or two "
+                    "readings of the end frame are left out (counted in option_combinations_skipped_as_ambiguous)"))
     sp.append(Space("pitch-class-core-full-options", gen_pc_core, True,
                     "%d arrays x FULL product time_div{1,2,4} x normalize x onset_only x note_separation x time_margin x return_idxs x "
-                    "remove_silence x end_time{None,last,last+1} x binary" % (len(CORE) + 3)))
+                    "remove_silence x end_time{None,last,last+1} x binary" % (len(CORE) + len(PC_EXTRA))))
     if quick:
-        gp = lambda: gen_pc_pairs((59, 60, 72, 127), (0, 1), (0, 2), [(None, None), (64, 127), (127, 64)])
-        sp.append(Space("pitch-class-two-row", gp, True,
-                        "ALL ordered 2-row arrays pitch{59,60,72,127}^2 x onset{0,1}^2 x duration{0,2}^2 x 3 velocity patterns x 20 option rows "
-                        "(pairwise covering + mirror)"))
+        sp.append(Space("pitch-class-two-row",
+                        lambda: gen_pc_pairs((59, 60, 72, 127), (0, 1), (0, 2), [(None, None), (64, 127), (127, 64)]), True,
+                        "ALL ordered 2-row arrays pitch{59,60,72,127}^2 x onset{0,1}^2 x duration{0,2}^2 x 3 velocity patterns; 20 option "
+                        "rows each (pairwise covering array over the 9 option dimensions + mirror)"))
+        sp.append(Space("inverse-rolls",
+                        lambda: itertools.chain(gen_inverse(128, 4, (0, 60, 127), (1, 127), 3, INV_DIVS, INV_CONT),
+                                                gen_inverse(88, 4, (0, 87), (1, 64), 3, INV_DIVS, INV_CONT)), True,
+                        "ALL integer rolls 128 x n (rows 0,60,127; values 1,127) and 88 x n (rows 0,87; values 1,64), n <= 4, at most 3 "
+                        "non-touching runs; " + INV_TXT))
     else:
-        gp = lambda: gen_pc_pairs((0, 59, 60, 72, 127), (0, 1, 2), (0, 1, 2), [(None, None), (64, 127), (127, 64), (1, 1)])
-        sp.append(Space("pitch-class-two-row", gp, True,
-                        "ALL ordered 2-row arrays pitch{0,59,60,72,127}^2 x onset{0,1,2}^2 x duration{0,1,2}^2 x 4 velocity patterns x 20 option rows"))
-    divs_q = [[1, "sec"], [2, "beat"], [8, "div"], [3, "quarter"]]
-    conts = ["ndarray", "csc", "csr"]
-    if quick:
-        gi = lambda: itertools.chain(gen_inverse(128, 4, (0, 60, 127), (1, 127), 3, divs_q, conts),
-                                     gen_inverse(88, 4, (0, 39, 87), (1, 64), 3, divs_q, conts))
-        sp.append(Space("inverse-rolls", gi, True,
-                        "ALL integer rolls 128 x n (rows 0,60,127; values 1,127) and 88 x n (rows 0,39,87; values 1,64), n <= 4, at most 3 "
-                        "non-touching runs; time_div/unit {1 sec, 2 beat, 8 div, 3 quarter} x container {ndarray, csc, csr}"))
-    else:
-        gi = lambda: itertools.chain(gen_inverse(128, 5, (0, 60, 61, 127), (1, 64, 127), 3, divs_q, conts),
-                                     gen_inverse(88, 5, (0, 39, 40, 87), (1, 64, 127), 3, divs_q, conts))
-        sp.append(Space("inverse-rolls", gi, True,
-                        "ALL integer rolls 128 x n (rows 0,60,61,127) and 88 x n (rows 0,39,40,87), values {1,64,127}, n <= 5, at most 3 "
-                        "non-touching runs; 4 time_div/unit pairs x 3 containers"))
+        sp.append(Space("pitch-class-two-row",
+                        lambda: gen_pc_pairs((0, 59, 60, 72, 127), (0, 1, 2), (0, 1, 2), [(None, None), (64, 127), (127, 64), (1, 1)]), True,
+                        "ALL ordered 2-row arrays pitch{0,59,60,72,127}^2 x onset{0,1,2}^2 x duration{0,1,2}^2 x 4 velocity patterns; 20 "
+                        "option rows each"))
+        sp.append(Space("inverse-rolls",
+                        lambda: itertools.chain(gen_inverse(128, 5, (0, 60, 127), (1, 127), 3, INV_DIVS, INV_CONT),
+                                                gen_inverse(88, 5, (0, 39, 87), (1, 64), 3, INV_DIVS, INV_CONT)), True,
+                        "ALL integer rolls 128 x n (rows 0,60,127; values 1,127) and 88 x n (rows 0,39,87; values 1,64), n <= 5, at most 3 "
+                        "non-touching runs; " + INV_TXT))
     return sp
 
 
